@@ -359,7 +359,7 @@ def writeSegs : St → List (WSeg × Option Path) → Bytes → Nat → St × So
         if !ok3 then (st3, .fault) else
         let (st4, ok4) := st3.op (.seek seg.off) target (fun fs => (fs, true))
         if !ok4 then (st4, .fault) else
-        if buf.length < stop then (st4, .panic) else              -- &result.bytes[start..end] out of range
+        if buf.length < stop then (st4, .fault) else              -- result.bytes.get(start..end) is None: the matched bytes are too short, an I/O error for this piece
         let data := (buf.drop start).take seg.len
         let (st5, ok5) := st4.op (.write seg.off data) target (fun fs => (fs.writeAt i seg.off data, true))
         if !ok5 then (st5, .fault) else writeSegs st5 rest buf stop
